@@ -638,6 +638,7 @@ def run(ctx):
             ctx.fail('nbs_bct:timeout', 'did not terminate', case); continue
         except Exception as e:
             pv = adj = null = None; err = repr(e); code = exn_code(e)
+        tie_variants(case)      # input-representation layer: further calls follow and the model comparison of this case is batched
         ctx.case(case, nontrivial=bool(S), sample_every=41)
         ctx.count('family:' + fam); ctx.count('n=%d' % n); ctx.count('tail:' + tail); ctx.count('paired' if paired else 'unpaired')
         ctx.count('groups:%s' % ('equal' if nx == ny else 'unequal'))
